@@ -49,7 +49,7 @@ HdrLen(f) == 2 + (IF f.lk # "n" THEN 8 ELSE IF f.nonmin THEN (IF f.len <= 125 TH
              + (IF f.mk THEN 4 ELSE 0)
 
 Annotate(f0, i, c, sw) ==
-  LET f == IF f0.len < 0 THEN [f0 EXCEPT !.len = 5] ELSE f0   \* "all but k bytes" of a compressed payload
+  LET f == IF f0.len < 0 \/ (f0.comp # "" /\ f0.len = 0) THEN [f0 EXCEPT !.len = 5] ELSE f0   \* compressed payload: representative length
       base == [op |-> f.op, fin |-> f.fin, r1 |-> f.r1, r2 |-> f.r2, r3 |-> f.r3, mk |-> f.mk,
                len |-> f.len, lk |-> f.lk, min |-> ~f.nonmin,
                code |-> f.code, utf8 |-> (f.rs # "bad"), plain |-> f.plain, comp |-> (f.comp # "")]
